@@ -74,7 +74,9 @@ def validate(run, sc: Path, traces: list, what: str, module: str = "SymbolsTrace
     if not traces:
         return {}
     f = sc / f"idtrace_{abs(hash(what)) % 10**8}.json"
-    f.write_text(json.dumps({"traces": traces}))
+    names = [t["tid"] for t in traces]
+    f.write_text(json.dumps({"traces": [{"tid": i, "runs": t["runs"]} for i, t in enumerate(traces)]}))  # short tids:
+    # TLC wraps long printed tuples over several lines
     cfg = write_cfg(sc / f"{f.stem}.cfg", init="TraceInit", next_="TraceNext", constants=NULL_CONSTANTS,
                     invariants=["Accepted", "Stuck"])
     res = run_tlc(module, cfg, sc, workers=1, env={"TRACE_FILE": str(f)}, allow_violation=False)
@@ -83,9 +85,9 @@ def validate(run, sc: Path, traces: list, what: str, module: str = "SymbolsTrace
     for line in res.raw_prints:
         v = parse_tla_tuple(line)
         if v[0] == "ACCEPT":
-            verdict.setdefault(v[1], None)
+            verdict.setdefault(names[v[1]], None)
         elif v[0] == "STUCK":
-            verdict[v[1]] = tuple(v[2:])
+            verdict[names[v[1]]] = tuple(v[2:])
     missing = [t["tid"] for t in traces if t["tid"] not in verdict]
     if missing:
         raise RuntimeError(f"trace validation gave no verdict for {missing[:5]}")
